@@ -100,6 +100,13 @@ func NewZookeeper(ctx context.Context, config *ZookeeperConfig, logger *log.Logg
 		}
 	}
 
+	if vc := verifZKConnect(); vc != nil {
+		operation = func() error {
+			conn, ec, err = vc(config, zkLoggerProxy{logger})
+			return err
+		}
+	}
+
 	err = retry(config, operation)
 	if err != nil {
 		return nil, err
